@@ -82,7 +82,7 @@ fn case<R: KhRing>(ctx: &mut Ctx, rng: &mut Rng) where for<'x> &'x R: EucRingOps
     let class = format!("{rname}/{}", if reduced { "reduced" } else { "unreduced" });
     ctx.ok(&class, p.nontrivial, hash_of(&(&p.a.x, &p.b.x, reduced)));
     ctx.count("moves_applied", p.log.len() as i64);
-    for (k, pre) in [("moves/R1_kink", "R1"), ("moves/R2_across_face", "R2"), ("moves/braid_relation_R3", "braid relation"), ("moves/markov", "Markov"), ("moves/R2_braid_insert_cancel", "insert"), ("moves/R2_braid_insert_cancel", "cancel")] {
+    for (k, pre) in [("moves/R1_kink", "R1"), ("moves/R2_across_face", "R2"), ("moves/R3_triangular_face", "R3"), ("moves/braid_relation_R3", "braid relation"), ("moves/markov", "Markov"), ("moves/R2_braid_insert_cancel", "insert"), ("moves/R2_braid_insert_cancel", "cancel")] {
         let c = p.log.iter().filter(|s| s.starts_with(pre)).count();
         if c > 0 { ctx.count(k, c as i64) }
     }
